@@ -9,9 +9,13 @@
   builds lies between `start` and `end`, both valid dates).
   Instants are the `Instant` of PyodaModel.Elapsed, including the two sentinels
   `Instant._before_min_value()` / `_after_max_value()`.
+  `YearMonth.to_date_interval` (pyoda_time/_year_month.py) is modelled over the calendar descriptions (`Calc`) of
+  PyodaModel.Calendar: constructor validation, the unvalidated start date, the validated end date, then
+  `DateInterval.__init__`.
 -/
 import PyodaModel.Prelude
 import PyodaModel.Elapsed
+import PyodaModel.Calendar
 
 namespace Pyoda.Intervals
 open Pyoda
@@ -113,6 +117,34 @@ def iter (I : DateInterval) (fuel : Nat) : R (List LDate) := iterLoop I fuel 0
 
 end DateInterval
 
+/-! ## YearMonth.to_date_interval -/
+
+namespace YearMonth
+open Pyoda.Calendar
+
+/-- `YearMonth(year=y, month=m, calendar=…)`: `calendar._validate_year_month_day(year, month, 1)`; the value keeps
+    (year, month, day 1, ordinal). -/
+def new (ord : Nat) (c : Calc) (y m : Int) : R (Int × Int) := do
+  validateOrd ord c y m 1
+  pure (y, m)
+
+/-- `_start_date._days_since_epoch`: `LocalDate._ctor(year_month_day_calendar=start_of_month)` does not validate;
+    the day number is `calendar._get_days_since_epoch` (Gregorian: month-start table for 1900–2100). -/
+def startDay (ord : Nat) (c : Calc) (y m : Int) : R Int :=
+  if ord ≤ 1 then Greg.daysOfYmdFast y m 1 else daysOfYmdRaw c y m 1
+
+/-- `_end_date`: `LocalDate(year, month, calendar.get_days_in_month(year, month), calendar)` — validated. -/
+def endDay (ord : Nat) (c : Calc) (y m : Int) : R Int := daysOrd ord c y m (c.dim y m)
+
+/-- `YearMonth(year=y, month=m, calendar=c).to_date_interval()` = `DateInterval(_start_date, _end_date)` -/
+def toDateInterval (ord : Nat) (c : Calc) (y m : Int) : R DateInterval := do
+  let (y, m) ← new ord c y m
+  let s ← startDay ord c y m
+  let e ← endDay ord c y m
+  DateInterval.new ⟨ord, s⟩ ⟨ord, e⟩
+
+end YearMonth
+
 /-! ## Interval -/
 
 structure Interval where
@@ -188,7 +220,7 @@ def ivProps (I : Interval) : String :=
 /-- Ops (dates are `cal day`, intervals `cal start cal end` built WITHOUT the constructor check only in
     `di.new`; every other op first builds its intervals with `DateInterval.new` and replies with its error):
     `di.new c1 s c2 e`, `di.cont I c d`, `di.sub I J`, `di.len I`, `di.iter I`, `di.and I J`, `di.or I J`,
-    `di.eq I J`; `iv.new B B`, `iv.props B B`, `iv.cont B B d n`, `iv.eq B B B B` with `B = has days nod`. -/
+    `di.eq I J`; `ym.interval c y m` (→ `c start c end`, through `YearMonth.toDateInterval`); `iv.new B B`, `iv.props B B`, `iv.cont B B d n`, `iv.eq B B B B` with `B = has days nod`. -/
 def handle (toks : List String) : Option String :=
   match toks with
   | op :: args => do
@@ -233,6 +265,12 @@ def handle (toks : List String) : Option String :=
       let (J, rest) ← withDI rest
       if rest ≠ [] then none else
       some (showB (do let I ← DateInterval.new I.s I.e; let J ← DateInterval.new J.s J.e; .ok (I.beq J)))
+    | "ym.interval" =>
+      match l with
+      | [o, y, m] => if o < 0 then none else do
+        let c ← Calendar.calcOf o.toNat
+        some (showR (fun J => showInts [J.s.cal, J.s.day, J.e.cal, J.e.day]) (YearMonth.toDateInterval o.toNat c y m))
+      | _ => none
     | "iv.new" => do
       let (I, rest) ← withIv l
       if rest ≠ [] then none else
